@@ -18,6 +18,7 @@ import (
 
 	// the http app needs the tls and events apps to provision
 	_ "github.com/caddyserver/caddy/v2/modules/caddyevents"
+	_ "github.com/caddyserver/caddy/v2/modules/caddyhttp/rewrite"
 	_ "github.com/caddyserver/caddy/v2/modules/caddytls"
 )
 
@@ -273,6 +274,8 @@ func routesJSON(rs []*route) []obj {
 				hs = append(hs, obj{"handler": "verif_c05", "id": h.id, "kind": "rewrite", "path": paths[h.arg]})
 			case 'f':
 				hs = append(hs, obj{"handler": "verif_c05", "id": h.id, "kind": "fail", "status": h.arg})
+			case 'z': // what `handle_path /a/*` puts in front of its body
+				hs = append(hs, obj{"handler": "rewrite", "strip_path_prefix": "/a"})
 			case 'i':
 				hs = append(hs, obj{"handler": "invoke", "name": "n" + strconv.Itoa(h.arg)})
 			case 'x', 'y':
@@ -604,7 +607,47 @@ func serveSeq(rs []*route, hasErrs bool, errs []*route, qs []request, named []*r
 // serveConcurrently makes serveSeq add four concurrent requests (see there).
 var serveConcurrently bool
 
+// pathStr: index 6 is the empty path (strip_path_prefix "/a" applied to "/a")
+func pathStr(i int) string {
+	if i == 6 {
+		return ""
+	}
+	if i == 7 {
+		return "." // CleanPath("") inside the rewrite handler
+	}
+	return paths[i]
+}
+
+// stripPath is strip_path_prefix "/a" on the path alphabet.
+func stripPath(p int) int {
+	switch p {
+	case 1:
+		return 6
+	case 2:
+		return 3
+	case 5:
+		return 4
+	case 6:
+		return 7
+	}
+	return p
+}
+
+// requestLineOf: the empty path is written "/" in the request line.
+func requestLineOf(p int) int {
+	if p == 6 {
+		return 0
+	}
+	return p
+}
+
 func pathIndex(p string) string {
+	if p == "" {
+		return "6"
+	}
+	if p == "." {
+		return "7"
+	}
 	for i, s := range paths {
 		if s == p {
 			return strconv.Itoa(i)
